@@ -33,6 +33,20 @@ const hKeyLo, hKeyHi = byte('a'), byte('c') // the user-key alphabet
 // except where a harness wants keys that agree in their first 8 bytes (abbreviated keys).
 var hKeyPrefix []byte
 
+// hOpsNextPrefix adds NextPrefix (from a key) to the operations of hIterOps (c02.go).
+var hOpsNextPrefix bool
+
+// Native replay runs all cases in one process: reset the harness knobs before each (the engine
+// starts every path with freshly initialised package variables and does not run init).
+func init() {
+	sym.OnCase(func() {
+		hKeyPrefix = nil
+		hUseDB, hDBLean, hUseLevelIter, hUseMemtable = false, false, false, false
+		hLevelIterCut = -1
+		hOpsNextPrefix = false
+	})
+}
+
 func hKeyBytes(k byte) []byte { return append(append([]byte(nil), hKeyPrefix...), k) }
 
 type hWrite struct {
